@@ -240,9 +240,22 @@ func (me *multiEndpoint) switchFromTo(f, t *endpoint) {
 	timeAfterFunc(me.switchingDelay, func() {
 		me.Lock()
 		defer me.Unlock()
-		if e, ok := me.endpoints[me.future]; ok && e.status == available {
-			me.current = e.id
+		e, ok := me.endpoints[me.future]
+		if !ok || e.status != available {
+			return
 		}
+		// The endpoints may have been updated while waiting. Do not switch if
+		// this switch is outdated: a higher priority endpoint is available or
+		// the current endpoint is recovering and has higher priority.
+		for _, o := range me.endpoints {
+			if o.status == available && o.priority < e.priority {
+				return
+			}
+		}
+		if c, exists := me.endpoints[me.current]; exists && c.status == recovering && c.priority < e.priority {
+			return
+		}
+		me.current = e.id
 	})
 }
 
